@@ -24,6 +24,6 @@ trap 'git -C /repo worktree remove --force $WT; H=$(python3 -c "import hashlib,o
 if ! git -C $WT apply $P 2>/dev/null; then echo "BENIGN $P does-not-apply"; exit 0; fi
 if ! (cd $WT && GOFLAGS= go build ./... >/dev/null 2>&1 && cd gcetcbendorsement && GOFLAGS= go build ./... >/dev/null 2>&1); then echo "BENIGN $P does-not-build"; exit 0; fi
 for ID in $IDS; do
-  OUT=$(GOFLAGS=-mod=mod VERIF_REPO=$WT python3 run.py $ID quick 2>&1); RC=$?
+  OUT=$(GOFLAGS=-mod=mod VERIF_REPO=$WT python3 run.py $ID ${TIER:-quick} 2>&1); RC=$?
   echo "BENIGN $P $ID rc=$RC $(echo "$OUT" | grep -m1 -A1 'VIOLATION\|INFRA' | grep -o 'key=[^ ]*' | head -1)"
 done
